@@ -96,6 +96,8 @@ func runCase(line string, rng *common.Rng, reps int) string {
 		return runUniverse(u, rng, reps)
 	case strings.HasPrefix(line, "MF "):
 		return runModfileCase(line)
+	case strings.HasPrefix(line, "MC "):
+		return runMCCase(line)
 	}
 	return "BADCASE"
 }
@@ -151,6 +153,8 @@ func main() {
 				j := &jobs[i]
 				if i < nuni {
 					j.line = genUniverse(j.gen).String()
+				} else if (i-nuni)%3 != 0 {
+					j.line = genMCCase(j.gen)
 				} else {
 					j.line = genModfileCase(j.gen)
 				}
